@@ -72,7 +72,8 @@ CLAIMED = {
     "C12": ("Lean 4 theorems (log of the evaluation equals the canonical invocation list, for arbitrary machines; independence from consumption) "
             "+ checked correspondence on instrumented conditions/modifiers",
             "Each modifier/condition past the held-input suppression is invoked exactly once per frame in the canonical order, with no "
-            "hypothesis on results, blockers, consumption or state; proved for actions and whole context instances." + CORR, "§5 C12"),
+            "hypothesis on results, blockers, consumption or state; proved for actions, whole context instances and the whole registry update of a "
+            "frame (registry_log_canonical)." + CORR, "§5 C12"),
     "C13": ("Lean 4 theorems (re-binding keeps position and key bijection; append lemma and frame lemma for the action loop: earlier actions "
             "show this frame's data, later ones and self the previous frame's; Chord / BlockBy / AccumulateBy characterised incl. absent actions) "
             "+ checked correspondence over all binding orders with forward/backward/self/absent references",
